@@ -11,10 +11,10 @@
      * a coo_matrix is (row, col, data) + the flag.
    The decisions the code takes at the boundary (when to re-canonicalise, which compressed axis a
    csr/csc matrix becomes, which constructor flags a coo_matrix gets, which scipy class a GCXS
-   becomes) are the generated definitions of Gen/S_scipy.v.  Format changes inside scipy
+   becomes) are the generated definitions of Gen/S_scipyconv.v.  Format changes inside scipy
    (csr <-> csc <-> coo by scipy's own asformat) are not modelled. *)
 From Coq Require Import ZArith List Bool.
-From Verif Require Import Py Shape COO GCXS S_scipy Convert.
+From Verif Require Import Py Shape COO GCXS S_scipyconv Convert.
 Import ListNotations.
 Open Scope Z_scope.
 
@@ -71,6 +71,12 @@ Section Scipy.
   Definition canonical_scipy (m : scs) : scs :=
     if s_canonical_scipy_recanon (sc_canonicalb m) then sc_sum_duplicates m else m.
 
+  (* the CALLER's matrix after _canonical_scipy returned: scipy's sum_duplicates() works in place, so the
+     operand itself is rewritten unless the function rebinds x to a fresh copy first *)
+  Definition scipy_operand_after (m : scs) : scs :=
+    if s_canonical_scipy_recanon (sc_canonicalb m) && negb s_canonical_scipy_copies_first
+    then sc_sum_duplicates m else m.
+
   (* GCXS.from_scipy_sparse (csr or csc input), CSR.from_scipy_sparse (csr), CSC.from_scipy_sparse (csc) *)
   Definition gcxs_from_scipy (m : scs) : gcxs V := sc_as_gcxs (canonical_scipy m).
 
@@ -109,6 +115,7 @@ Arguments sc_canonicalb {V}.
 Arguments sc_coords {V}.
 Arguments sc_sum_duplicates {V}.
 Arguments canonical_scipy {V}.
+Arguments scipy_operand_after {V}.
 Arguments gcxs_from_scipy {V}.
 Arguments gcxs_to_scipy {V}.
 Arguments coo_from_scipy {V}.
